@@ -290,8 +290,9 @@ class Fn:
         return len(ds) == 1 and ds[0].kind == "entry" and name in self.params
 
     # -- path predicates ----------------------------------------------------
-    def awaits_between(self, a, b, labels=NONEXC) -> list:
-        return [self.cfg.nodes[i] for i in sorted(self.cfg.between(a.id, b.id, labels)) if self.cfg.nodes[i].awaits and i not in (a.id, b.id)]
+    def awaits_between(self, a, b, labels=NONEXC, fresh: bool = False) -> list:
+        """fresh=True: only paths on which a is not executed again (the value a defines is the one b reads)"""
+        return [self.cfg.nodes[i] for i in sorted(self.cfg.between(a.id, b.id, labels, avoid=(a.id,) if fresh else ())) if self.cfg.nodes[i].awaits and i not in (a.id, b.id)]
 
     def dominated_by_branch(self, node, test_pred: Callable[[ast.expr], bool], label: str) -> bool:
         """node is dominated by the `label` branch of some test satisfying test_pred."""
